@@ -58,7 +58,7 @@ func init() {
 			{ID: "C17.R8", Floor: 3, Doc: "stoppable services: work is accepted (a listener registered, a timer armed) only after testing the stopped flag under the same lock, and the stopping side releases what was registered", Run: c17r8},
 			{ID: "C17.R9", Floor: 2, Doc: "stop signals cannot be lost: a send on a service's stop channel either blocks until taken or goes into a buffered channel", Run: c17r9},
 			{ID: "C17.R10", Floor: 1, Doc: "goroutines and deferred closures started in a loop do not capture the loop's iteration variable (the module's go version gives it per-loop scope)", Run: c17r10},
-			{ID: "C17.R11", Floor: 2, Doc: "no blocking channel operation on an object's channel while holding that object's mutex when the goroutine on the other end takes the same mutex", Run: c17r11},
+			{ID: "C17.R11", Floor: 1, Doc: "no blocking channel operation on an object's channel while holding that object's mutex when the goroutine on the other end takes the same mutex", Run: c17r11},
 			{ID: "C17.R12", Floor: 1, Doc: "the control connection that is being replaced is closed on every path", Run: c17r12},
 		},
 	})
